@@ -50,6 +50,7 @@ def check_case(ctx, case):
     flags['slow_save_ms'] = case.get('slow_save_ms', 0)
     flags['within_handler'] = case.get('within_handler')
     flags['prior'] = case.get('prior')
+    flags['prior_same_class'] = case.get('prior_same_class')
     prog['extractor_sleep_ms'] = case.get('slow_extractor_ms', 0)
     if prog.get('extractor', 'none') == 'none' and case.get('extractor_ok'):
         prog['extractor'] = 'ok'
@@ -121,6 +122,19 @@ def check_case(ctx, case):
         if user != want_user:
             raise Violation('user metadata is %r, extractor (%s) gives %r (%s)' % (user, mode, want_user, what),
                             'user-metadata')
+        if 'earlier_only' in md:
+            raise Violation('metadata carries user metadata of an EARLIER run of the same operation class: %r (%s)' % (
+                dict((k, md[k]) for k in ('user_key', 'n', 'earlier_only') if k in md), what), 'user-metadata')
+        if fr.prior_same is not None:
+            # the recording of the earlier run of the same class still says what it said when it was saved
+            prid, pmd = fr.prior_same
+            now_md = dict((k, v) for k, v in fr.cas.get_recording_metadata(prid).items() if not isinstance(v, type))
+            if now_md != pmd:
+                diff = sorted(k for k in set(now_md) | set(pmd) if now_md.get(k, '<absent>') != pmd.get(k, '<absent>'))
+                raise Violation('metadata of the EARLIER recording of the same operation class changed at %r when the '
+                                'next run was recorded: now %r, was %r' % (
+                                    diff, [now_md.get(k, '<absent>') for k in diff], [pmd.get(k, '<absent>') for k in diff]),
+                                'earlier-recording')
         if md2 != md:
             raise Violation('metadata fetched on its own differs from the recording\'s metadata', 'metadata-only')
         # default lookup
@@ -156,7 +170,8 @@ def enumerate_case(ctx, base):
             raise
         ctx.case(case, nontrivial(prog, fl), classes=tuple('fault:' + f['kind'] + (':' + f['mode'] if 'mode' in f else '')
                                                           for f in fl) + (
-            'ends:' + eff['terminated'], 'caller:' + str(base.get('within_handler')), 'prior:' + str(base.get('prior')), 'klass:' + prog.get('klass', 'instance'), 'derived' if prog.get('derived') else 'not-derived',
+            'ends:' + eff['terminated'], 'caller:' + str(base.get('within_handler')), 'prior:' + str(base.get('prior')),
+            'earlier-run-of-same-class' if base.get('prior_same_class') else 'first-run-of-class', 'klass:' + prog.get('klass', 'instance'), 'derived' if prog.get('derived') else 'not-derived',
             'cassette:' + base['cassette']))
 
 
@@ -186,6 +201,7 @@ def bases(draw):
             'cassette': draw(st.sampled_from(['memory', 'memory', 'file', 's3'])),
             'within_handler': draw(st.sampled_from([None, None, 'exception', 'interrupt'])),
             'prior': draw(st.sampled_from([None, None, ['record'], ['record', 'play'], ['record', 'play']])),
+            'prior_same_class': draw(st.sampled_from([False, False, True])),
             'extractor_ok': draw(st.booleans()), 'slow_save_ms': draw(st.sampled_from([0, 0, 4])),
             'slow_extractor_ms': draw(st.sampled_from([0, 0, 4]))}
 
